@@ -229,6 +229,15 @@ def one_history(ctx, index, rng: random.Random):
                 elif op == "set_dtype":
                     rec.mon("C13.set_dtype")
                     target = rng.choice(DTYPES_ALL)
+                    if rng.random() < 0.12 and np.dtype(h.dtype).kind == "f" and h.frequencies.size:
+                        # "unknown" (NaN) contents are neither integral nor in range: an integer dtype must be refused
+                        fr = np.asarray(h.frequencies, dtype=h.dtype).copy()
+                        fr.flat[rng.randrange(fr.size)] = np.nan
+                        try:
+                            h.frequencies = fr
+                        except Exception:
+                            pass
+                        f0, e0 = shadow_of(h)
                     if rng.random() < 0.3 and h.total < 1e6:
                         h *= rng.choice([1000, 40000])  # make range refusals reachable
                         if rng.random() < 0.5:
@@ -266,7 +275,7 @@ def one_history(ctx, index, rng: random.Random):
                         tol = _tol(target, before_dtype)
                         # values below the smallest normal number of a narrower float type may round to subnormals / zero (in range, allowed)
                         atol = float(np.finfo(np.dtype(target)).tiny) if np.dtype(target).kind == "f" else 0.0
-                        if not (np.allclose(f1, f0, rtol=tol, atol=atol) and np.allclose(e1, e0, rtol=tol, atol=atol)):
+                        if not (np.allclose(f1, f0, rtol=tol, atol=atol, equal_nan=True) and np.allclose(e1, e0, rtol=tol, atol=atol, equal_nan=True)):
                             rec.fail(monitor="C13.set_dtype", op="set_dtype", symptom="values changed by an accepted dtype change", diff=["frequencies", "errors2"],
                                      detail={"from": str(before_dtype), "to": target, "before": f0.ravel()[:8], "after": f1.ravel()[:8]})
         except Exception as ex:
